@@ -185,9 +185,9 @@ type c15Run struct {
 	c       *Case
 	ts      *TS
 	cc      *hotline.ClientConn
-	toks    []string // oracle tokens
-	impl    []string // implementation observations, one per model observation
-	labels  []string // what each observation is
+	toks    []string            // oracle tokens
+	impl    []string            // implementation observations, one per model observation
+	labels  []string            // what each observation is
 	logins  [][]byte            // every login ever used
 	pws     map[string][][]byte // login -> passwords (as sent) ever used with it
 	hashPw  map[string]string   // bcrypt string -> hex of a password known to verify (cache)
